@@ -32,6 +32,30 @@ theorem resolve_alpha (σ : String → String) (hσ : Function.Injective σ) (cs
   unfold resolve
   exact resolveLoop_rename σ hσ _ args hg cs [] [] []
 
+/-- **the visible set is the lexically enclosing declarations**: unless a `forward fn` declaration is still
+unimplemented, the candidates at a call site are all overloads registered in the enclosing scopes, innermost first —
+whatever the call site is (after the declarations, inside the body of one of the overloads, inside a sibling function or
+a lambda: scopes that register no overload of the name contribute nothing). With `resolve_perm` the outcome then does not
+depend on how the overloads are spread over the scope levels. -/
+theorem visible_set (levels : List ScopeLevel) (h : ∀ l ∈ levels, ∀ c ∈ l.funcs, c.pending = false) :
+    (getItem levels).getD [] = levels.flatMap (·.funcs) :=
+  getItem_flat levels h
+
+/-- the only overload ever hidden is the function's own pending forward declaration: in the body of `fn f` implementing
+`forward fn f`, a recursive call sees `f` once (example: the forward declaration, id 1, is skipped; the identical
+overload of an outer scope, id 3 - even a pending forward declaration there - stays visible and makes the call
+ambiguous) -/
+example :
+    let spec : FuncSpec := { gens := none, ps := [.int], nreq := 1, ret := .int }
+    let self_ : Cand := { id := 2, spec := spec, kind := .static }
+    let fwd : Cand := { id := 1, spec := spec, kind := .static, pending := true, height := 1 }
+    let outer : Cand := { id := 3, spec := spec, kind := .static, pending := true, height := 0 }
+    resolveAt [{ funcs := [self_], recourse := some spec.xtype, height := 2 }, { funcs := [fwd], height := 1 }] [.int]
+      = .ok 2 ∧
+    resolveAt [{ funcs := [self_], recourse := some spec.xtype, height := 2 }, { funcs := [fwd], height := 1 },
+        { funcs := [outer], height := 0 }] [.int] = .ambiguous false 2 := by
+  decide
+
 /-- the winner is a visible candidate that matches the arguments -/
 theorem resolve_sound (cs : List Cand) (args : List Ty) (i : Nat) (h : resolve cs args = .ok i) :
     ∃ c ∈ cs, c.id = i ∧ c.matches args = true := by
